@@ -276,6 +276,22 @@ func (g *generator) randomDoc() *doc {
 	return g.write(v, hr, vals, bodies)
 }
 
+// sweepDoc: a small object, a stream of n bytes (no trailing EOL, no line "endstream") whose
+// /Length the Writer has to put into a later object, a small object
+func (g *generator) sweepDoc(n int) *doc {
+	body := make([]byte, n)
+	for i := range body {
+		body[i] = byte('a' + i%26)
+		if i%71 == 70 && i+3 < n {
+			body[i] = '\n'
+		}
+	}
+	vals := []pdf.Object{pdf.String("first"), nil, pdf.Name("Third")}
+	d := g.write(pdf.V1_4, n%2 == 0, vals, [][]byte{nil, body, nil})
+	d.class = "length-sweep"
+	return d
+}
+
 // windowDoc places marker text (not preceded by an EOL) where scanner.Find starts a
 // new search window: finding "marker-text-at-find-window-start"
 func (g *generator) windowDoc(marker string, at int) *doc {
@@ -297,10 +313,33 @@ type runner struct {
 }
 
 // observe runs the real scan on data and returns (observation, case fields for the model)
+// errScanPanics stands for a panic of SequentialScan / FileInfo.Read
+var errScanPanics = errors.New("panic")
+
+func safeParse(loc *pdf.FileInfo, o *pdf.FileObject) (x pdf.Object, err error) {
+	defer func() {
+		if r := recover(); r != nil {
+			x, err = nil, errScanPanics
+		}
+	}()
+	x, _, err = loc.VerifParse(o)
+	return x, err
+}
+
+func safeScan(data []byte) (fi *pdf.FileInfo, err error) {
+	defer func() {
+		if r := recover(); r != nil {
+			fi, err = nil, fmt.Errorf("%w: %v", errScanPanics, r)
+		}
+	}()
+	return pdf.SequentialScan(bytes.NewReader(data), int64(len(data)))
+}
+
 func observe(data []byte, withXRef bool) (obs string, pcs string, fi *pdf.FileInfo, scanErr error, spurious bool) {
 	defer func() {
 		if r := recover(); r != nil {
 			obs = fmt.Sprintf("panic:%v", r)
+			fi, scanErr = nil, fmt.Errorf("%w: %v", errScanPanics, r)
 		}
 	}()
 	// parse outcomes at the candidates the implementation locates
@@ -308,8 +347,11 @@ func observe(data []byte, withXRef bool) (obs string, pcs string, fi *pdf.FileIn
 	if loc, err := pdf.VerifLocate(bytes.NewReader(data), int64(len(data))); err == nil {
 		for _, sec := range loc.Sections {
 			for _, o := range sec.Objects {
-				x, _, err := loc.VerifParse(o)
+				x, err := safeParse(loc, o)
 				cls := errClass(err)
+				if errors.Is(err, errScanPanics) {
+					cls = "panic"
+				}
 				val := "-"
 				if err == nil {
 					val = valueDigest(x)
@@ -324,9 +366,12 @@ func observe(data []byte, withXRef bool) (obs string, pcs string, fi *pdf.FileIn
 	}
 	pcs = fmt.Sprintf("%d %s", len(pp), strings.Join(pp, " "))
 
-	fi, scanErr = pdf.SequentialScan(bytes.NewReader(data), int64(len(data)))
+	fi, scanErr = safeScan(data)
 	if scanErr != nil {
 		cls := errClass(scanErr)
+		if errors.Is(scanErr, errScanPanics) {
+			cls = "panic"
+		}
 		return "fail-" + cls, pcs, nil, scanErr, spurious
 	}
 	var parts []string
@@ -378,6 +423,12 @@ func (t *runner) oracle(d *doc, data []byte, avail int, fi *pdf.FileInfo, scanEr
 			sig = "marker-text-located-without-preceding-eol"
 		}
 		failCapped(e, sig, msg, map[string]any{"id": id, "what": what, "available_bytes": avail, "file_hex": hex.EncodeToString(data), "doc": d.class})
+	}
+	if errors.Is(scanErr, errScanPanics) {
+		// a panic is never acceptable, whatever the bytes
+		failCapped(e, "scan-panics", "SequentialScan / FileInfo.Read panics on these bytes: "+scanErr.Error(),
+			map[string]any{"id": id, "what": what, "available_bytes": avail, "file_hex": hex.EncodeToString(data), "doc": d.class})
+		return
 	}
 	if scanErr != nil {
 		if anyComplete {
@@ -576,7 +627,32 @@ func main() {
 		t.allCutsSparse(d, []int{len(d.data), len(d.data) - 1, 1100, 1000, 990})
 	}
 
-	nDocs := e.Pick(24, 400)
+	// streams >= 1024 bytes written to a sink that cannot seek get an indirect /Length whose
+	// object follows the stream: between the stream's endobj and the length object's endobj
+	// the extent has to be recovered by searching for endstream.  Sweep the body length so that
+	// the keyword lies at every alignment relative to the scanner's 1024-byte buffer.
+	for n := 1024; n <= 1024+1040; n++ {
+		d := g.sweepDoc(n)
+		rc := d.recs[1]
+		if rc.lenEnd == 0 {
+			panic("sweep document without an indirect /Length")
+		}
+		var cuts []int
+		if e.Thorough {
+			for c := rc.end; c < rc.lenEnd+2 && c <= len(d.data); c++ {
+				cuts = append(cuts, c)
+			}
+		} else {
+			cuts = []int{rc.end, rc.end + 1, rc.lenHdrEnd - 1, rc.lenHdrEnd + 1, rc.lenEnd - 1, rc.lenEnd}
+		}
+		t.allCutsSparse(d, cuts)
+	}
+	// the same family under the enumeration of all cuts
+	for _, n := range []int{1024 + 977, 1024 + 1500}[:e.Pick(1, 2)] {
+		t.allCuts(g.sweepDoc(n))
+	}
+
+	nDocs := e.Pick(10, 400)
 	for i := 0; i < nDocs; i++ {
 		d := g.randomDoc()
 		t.allCuts(d)
